@@ -44,6 +44,15 @@ class Rec:
         self.fields = dict(fields)
 
 
+class Sparse:
+    """Array filled component by component with constant indices (state vectors,
+    Jacobians): index -> dimension; unknown components are polymorphic."""
+    __slots__ = ('items',)
+
+    def __init__(self, items):
+        self.items = dict(items)
+
+
 class Fn:
     """Callable with a dimension signature (interp1d result)."""
     __slots__ = ('xdim', 'ydim')
@@ -254,7 +263,7 @@ class DimSystem:
         left) to a value other than the required one, no assignment of
         dimensions to the inputs can make the field follow a change of that
         unit.  Returns [(field_what, node, unit, have, want)] and the set of
-        unit indices to drop from blame()."""
+        output-anchor constraints (log sequence numbers) to leave out of blame()."""
         out, drop = [], set()
         if not self.inconsistencies:
             return out, drop
@@ -274,7 +283,7 @@ class DimSystem:
                     rb = self.resolve(self._mask(b, keep))
                     if not ra.t and not rb.t and ra.c[ui] != rb.c[ui]:
                         out.append((what, node, u, ra.c[ui], rb.c[ui]))
-                        drop.add(ui)
+                        drop.add(seq)
             finally:
                 self.subst, self.inconsistencies = saved
         return out, drop
@@ -286,17 +295,16 @@ class DimSystem:
         elimination happened to notice it: repeatedly take, in program order,
         every constraint with at most one unknown left (a check or a definite
         binding); when none is left take the earliest remaining one.  The
-        verdict (consistent or not) is order-independent.  Units in `drop`
-        (reported separately by no_carrier) are projected out."""
+        verdict (consistent or not) is order-independent.  Output anchors
+        in `drop` (log sequence numbers, reported separately by no_carrier)
+        are left out."""
         if not self.inconsistencies:
             return []
-        keep = set(range(self.nu)) - set(drop)
         saved = (self.subst, self.inconsistencies)
         self.subst, self.inconsistencies = {}, []
         try:
-            pending = sorted(self.log, key=lambda e: (e[0], e[1]))
-            if drop:
-                pending = [(p, q, self._mask(a, keep), self._mask(b, keep), n, w) for p, q, a, b, n, w in pending]
+            # output anchors already explained by no_carrier() are left out
+            pending = sorted((e for e in self.log if e[1] not in drop), key=lambda e: (e[0], e[1]))
             while pending:
                 progress = True
                 while progress and pending:
@@ -355,6 +363,8 @@ class DimSystem:
             return '{' + ', '.join('%s: %s' % (k, self.show(v)) for k, v in a.fields.items()) + '}'
         if isinstance(a, Fn):
             return '(%s -> %s)' % (self.show(a.xdim), self.show(a.ydim))
+        if isinstance(a, Sparse):
+            return '{' + ', '.join('%s: %s' % (k, self.show(v)) for k, v in sorted(a.items.items(), key=str)) + '}'
         if not isinstance(a, Lin):
             return '?'
         a = self.resolve(a)
@@ -559,8 +569,28 @@ class DimEval:
                 if not self.S.same(first, x):
                     return None
             return first
+        if isinstance(d, Sparse):
+            return self.homog(Seq(list(d.items.values())))
         if isinstance(d, Lin) or d is POLY:
             return d
+        return None
+
+    @staticmethod
+    def deseq(d):
+        """A Sparse vector with components 0..n-1 is an ordinary sequence."""
+        if isinstance(d, Sparse):
+            ks = sorted(k for k in d.items if isinstance(k, int))
+            if ks and len(ks) == len(d.items) and ks == list(range(len(ks))):
+                return Seq([d.items[k] for k in ks])
+        return d
+
+    @staticmethod
+    def const_index(idx_n):
+        if idx_n.kind == 'const' and isinstance(idx_n.val, int) and not isinstance(idx_n.val, bool):
+            return idx_n.val
+        if idx_n.kind == 'tuple' and idx_n.args and all(a.kind == 'const' and isinstance(a.val, int)
+                                                         and not isinstance(a.val, bool) for a in idx_n.args):
+            return tuple(a.val for a in idx_n.args)
         return None
 
     def _dim(self, n):
@@ -678,6 +708,16 @@ class DimEval:
 
     def join_unify(self, a, b, n, what):
         S = self.S
+        a, b = self.deseq(a), self.deseq(b)
+        if isinstance(a, Sparse) and isinstance(b, Sparse):
+            items = dict(a.items)
+            for k, v in b.items.items():
+                items[k] = self.join_unify(items.get(k, POLY), v, n, what)
+            return Sparse(items)
+        if isinstance(a, Sparse):
+            a = self.homog(a)
+        if isinstance(b, Sparse):
+            b = self.homog(b)
         if a is None or a is POLY:
             return b if b is not None else a
         if b is None or b is POLY:
@@ -703,6 +743,11 @@ class DimEval:
 
     def arith(self, a, b, fn, additive=False):
         """Apply fn(Lin, Lin) -> Lin elementwise over Seq operands."""
+        a, b = self.deseq(a), self.deseq(b)
+        if isinstance(a, Sparse):
+            a = self.homog(a)
+        if isinstance(b, Sparse):
+            b = self.homog(b)
         if a is None or b is None:
             return None
         if a is POLY or b is POLY:
@@ -806,6 +851,11 @@ class DimEval:
             if idx_n.kind == 'const':
                 return base.fields.get(idx_n.val)
             return None
+        if isinstance(base, Sparse):
+            ci = self.const_index(idx_n)
+            if ci is not None:
+                return base.items.get(ci, POLY)
+            return self.homog(base)
         return base
 
     def d_store(self, n):
@@ -832,13 +882,26 @@ class DimEval:
             if isinstance(hb, Lin) and isinstance(hv, Lin):
                 S.unify(hb, hv, n, 'value stored into array')
             return hb
+        ci = self.const_index(idx_n)
+        if isinstance(base, Sparse):
+            hv = self.homog(v) if isinstance(v, (Seq, Sparse)) else v
+            if ci is not None:
+                items = dict(base.items)
+                items[ci] = hv
+                return Sparse(items)
+            hb = self.homog(base)
+            if isinstance(hb, Lin) and isinstance(hv, Lin):
+                S.unify(hb, hv, n, 'value stored into array')
+            return hb if hb is not None else hv
         if isinstance(base, Lin):
-            hv = self.homog(v) if isinstance(v, Seq) else v
+            hv = self.homog(v) if isinstance(v, (Seq, Sparse)) else v
             if isinstance(hv, Lin):
                 S.unify(base, hv, n, 'value stored into array')
             return base
         if base is POLY:
-            hv = self.homog(v) if isinstance(v, Seq) else v
+            hv = self.homog(v) if isinstance(v, (Seq, Sparse)) else v
+            if ci is not None and base_n.kind == 'call' and n.val is None:
+                return Sparse({ci: hv})
             return hv if hv is not None else None
         if base is None:
             return None
@@ -1032,10 +1095,10 @@ class DimEval:
         # ODE integrators
         if name == 'scipy.integrate.solve_ivp':
             span = ds[1] if len(ds) > 1 else kd.get('t_span')
-            y0 = ds[2] if len(ds) > 2 else kd.get('y0')
+            y0 = self.deseq(ds[2] if len(ds) > 2 else kd.get('y0'))
             td = lin(span)
         elif name == 'scipy.integrate.odeint':
-            y0 = ds[1] if len(ds) > 1 else None
+            y0 = self.deseq(ds[1] if len(ds) > 1 else None)
             td = lin(ds[2]) if len(ds) > 2 else None
         else:
             # scipy.integrate.ode(f): state set later through methods -- opaque
@@ -1050,7 +1113,9 @@ class DimEval:
         yph = [p for p in ph if p.val == 'y'][0]
         self.memo[tph.nid] = td
         self.memo[yph.nid] = y0
-        r = self.dim(res_n) if res_n is not None else None
+        r = self.deseq(self.dim(res_n)) if res_n is not None else None
+        if isinstance(y0, Sparse):
+            y0 = self.homog(y0)
         # dy/dt : [y]/[t]
         if isinstance(y0, Seq) and isinstance(r, Seq) and len(y0.items) == len(r.items):
             for yi, ri in zip(y0.items, r.items):
